@@ -1,11 +1,12 @@
 import SctpVerif.Proofs.Rack.Reo
 import SctpVerif.Proofs.Rack.Tlr
+import SctpVerif.Proofs.Rack.Inv
 /-!
 # C02 — loss recovery (RACK, RACK timer, PTO, TLR) makes progress and is sound, on `Model/Rack.lean`
 
 Property theorems only. They hold for EVERY state of the component, every environment reading (`Rack.Env`) and every
 SACK summary unless a hypothesis says otherwise; hypotheses are invariants of the reachable states (`Rack.Inv`,
-`Props/C02rackinv.lean`) or facts about the environment (`Rack.EnvOK`: a valid SRTT reading is not negative — true of
+proved for every admissible run in `C02_rack_invariant`) or facts about the environment (`Rack.EnvOK`: a valid SRTT reading is not negative — true of
 the readings the code computes, `Rack.envOK_ofRat`).
 
 What the code does, as the theorems state it:
@@ -160,7 +161,52 @@ theorem C02_tlr_not_forever (s : St) (budget est : Int) (b : Int × Bool) (p : B
     split <;> simp_all
   exact tlrAllow_free_cases _ _ _ (Or.inl this)
 
+/-- ✱ The invariant of the component, for every run: starting from `createAssociation…` at a non-negative clock reading
+with a non-negative window floor (the option rejects negative values), after ANY list of operations that the
+environment can produce (`RunOK`: fresh TSNs for new chunks, retransmissions only of chunks in flight, SRTT readings
+that are not negative when valid) the RACK list is in send-time order and names only chunks in flight, no send time and
+no delivered time is ahead of the clock, the reordering window is not negative, and no list entry satisfies the loss
+test (`Quiet`). -/
+theorem C02_rack_invariant (cfg : Cfg) (tsn : BitVec 32) (now : Int) (hn : 0 ≤ now) (hf : 0 ≤ cfg.reoWndFloor)
+    (ops : List Op) (hok : RunOK (init cfg tsn now) ops) : Inv (run (init cfg tsn now) ops) :=
+  (Inv.init cfg tsn now hn hf).run ops hok
+
+/-- ✗ FINDING (the full-strength form of "the RACK timer saves a wake-up" is false): in EVERY reachable state the RACK
+timer callback `onRackTimeoutLocked` marks NOTHING. It evaluates `since + reoWnd < deliveredTime` — the same test, with
+the same window and the same delivered time, that `onRackAfterSACK` applied to the same list when it armed the timer; the
+test does not mention the clock, everything sent since is newer than `deliveredTime`, so nothing can have become
+"overdue" in between. RFC 8985 §7.2 declares a segment lost once `now ≥ xmit_ts + RACK.rtt + reo_wnd`; the code has no
+such clause. The timer is armed (`C02_rack_timer_armed`), fires, cleans the list of acked / abandoned entries, and the
+chunk inside the reordering window waits for the next SACK, the PTO or T3 (`C02_rack_timer_overdue_witness`). -/
+theorem C02_rack_timer_inert (cfg : Cfg) (tsn : BitVec 32) (now : Int) (hn : 0 ≤ now) (hf : 0 ≤ cfg.reoWndFloor)
+    (ops : List Op) (hok : RunOK (init cfg tsn now) ops) (env : Env) :
+    (onRackTimeout (run (init cfg tsn now) ops) env).2 = [] ∧
+    (onRackTimeout (run (init cfg tsn now) ops) env).1.q = (run (init cfg tsn now) ops).q := by
+  have h := (C02_rack_invariant cfg tsn now hn hf ops hok).onRackTimeout env
+  refine ⟨h.1, ?_⟩
+  rw [onRackTimeout_q, h.1, flagged_nil]
+
+/-- the witness, as a run of the model that the implementation reproduces line by line (corpus/C02/rack_timer_inert.ops):
+RTT 100 ms, reordering seen, TSN 1002 sent at 1.100 s, TSN 1003 sent at 1.105 s and delivered; the SACK at 1.205 s leaves
+1002 unmarked (inside the 25 ms window) and arms the timer for 1.330 s. By RFC 8985 TSN 1002 is lost at
+1.100 + 0.100 + 0.025 = 1.225 s. At 1.330 s the timer fires: nothing is marked, 1002 is still unflagged. -/
+theorem C02_rack_timer_overdue_witness :
+    let envW : Env := { srtt := { rackValid := true, rackDur := 100000000, ptoValid := true, ptoDur := 100000000, sendValid := true, sendDur := 100000000, tlrValid := true, tlrDur := 100000000 }, t3Running := true }
+    let ops : List Op := [.send false, .send false, .ptoAfterSend {}, .advance 100000000, .sack envW 999 [1001] 0 0, .sack envW 1001 [] 0 0, .send false, .ptoAfterSend envW, .advance 5000000, .send false, .ptoAfterSend envW, .advance 100000000, .sack envW 1001 [1003] 0 0, .advance 125000000]
+    let s := run (init {} 1000 1000000000) ops
+    s.now = 1330000000 ∧ s.rackDeadline = s.now ∧ s.reoWnd = 25000000 ∧ s.deliveredTime = 1105000000 ∧ s.list = [1002] ∧
+    (s.q.map fun c => (c.tsn, c.since, c.acked, c.retransmit)) = [(1002, 1100000000, false, false), (1003, 1105000000, true, false)] ∧
+    (1100000000 : Int) + 100000000 + s.reoWnd ≤ s.now ∧
+    (timerFire s envW).2 = [] ∧ (timerFire s envW).1.rackDeadline = 0 ∧
+    ((timerFire s envW).1.q.map fun c => (c.tsn, c.retransmit)) = [(1002, false), (1003, false)] := by
+  decide
+
 -- non-vacuity
+example : RunOK (init {} 1000 1) [.send false, .advance 5, .resend 1000 true false, .sack {} 1000 [] 0 0] := by
+  refine ⟨?_, trivial, ?_, ?_, trivial⟩
+  · intro c hc; cases hc
+  · exact ⟨_, List.mem_cons_self, rfl⟩
+  · intro h; cases h
 example : (onRackAfterSACK { (default : St) with now := 100, deliveredTime := 50, list := [1, 2], q := [({ tsn := 1, since := 10 } : Chunk), ({ tsn := 2, since := 50 } : Chunk)] } {} false 0 0 0).2 = [1] := by decide
 example : EnvOK {} := by intro h; cases h
 
